@@ -53,7 +53,8 @@ public:
             if (isSubscriptionIdValid(subscriptionId)) {
                 (*observer)(args...);
 
-                if (!observer->isValid()) {
+                // the callback may have unsubscribed its own subscription, which destroys the observer
+                if (isSubscriptionIdValid(subscriptionId) && !observer->isValid()) {
                     unsubscribeById(subscriptionId);
                 }
             }
